@@ -92,6 +92,9 @@ Proof.
   - destruct (save addr kg (height root) st log root) as [[[r' st'] log'] e] eqn:E.
     destruct (save_inv addr kg _ _ _ _ _ _ _ _ Hi E) as [Hi' Hn].
     destruct e; inversion H; subst; auto.
+  - destruct (save_cb addr kg (height root) budget 0%N st log root) as [[[[r' st'] log'] e] t'] eqn:E.
+    destruct (save_cb_inv addr kg _ _ _ _ _ _ _ _ _ _ _ Hi E) as [Hi' Hn].
+    destruct e; inversion H; subst; auto.
   - inversion H; subst. auto.
 Qed.
 
@@ -174,6 +177,36 @@ Proof.
   split; [exact HS|]. split; [exact Hlog | exact Hinv].
 Qed.
 
+(** a Store with size callbacks after the first Store: the cached root, no callback runs *)
+Lemma storecb_inv2 : forall L s f b, inv2 L s f ->
+  exists a, step addr kg s (OStoreCb b) = (s, BRef a) /\ ms_last s = Some a.
+Proof.
+  intros L [root st log last] f b [t [a [Hroot [Hden [Hf0 [HR [Hra [Hla _]]]]]]]].
+  cbn [ms_root ms_st ms_log ms_last] in *. exists a. split; [|assumption].
+  unfold step. cbn [ms_root ms_st ms_log ms_last].
+  pose proof (height_pos root) as Hh. destruct (height root) as [|h]; [lia|].
+  cbn [save_cb]. rewrite Hra. cbn [n_ref]. rewrite Hra. subst last. reflexivity.
+Qed.
+
+(** a rejected Store in the build phase: an error, and nothing a later operation can see changes *)
+Lemma rejected_store_inv1 : forall s f b, inv1 s f -> (b < 64)%N ->
+  exists s', step addr kg s (OStoreCb b) = (s', BErr ESizeFn) /\ inv1 s' f.
+Proof.
+  intros [root st log last] f b [[Hok [Hloc [Hrbs Hnv]]] [Hst [Hlog [Hlast [Hf0 Hden]]]]] Hb.
+  cbn [ms_root ms_st ms_log ms_last] in *.
+  destruct (save_cb_reject addr kg kg_len (height root) b 0%N st log root (le_n _) Hb Hok)
+    as [t' [tot' [Hsv [Hok' [T1 [T2 [T3 [T4 [T5 [T6 Hd]]]]]]]]]].
+  { apply Hloc. }
+  { destruct Hrbs as [H|[H _]]; auto. }
+  unfold step. cbn [ms_root ms_st ms_log ms_last]. rewrite Hsv.
+  eexists. split; [reflexivity|]. unfold inv1. cbn [ms_root ms_st ms_log ms_last].
+  split; [|split; [assumption|split; [assumption|split; [assumption|split; [assumption|]]]]].
+  - split; [assumption|]. split.
+    + destruct Hloc as [_ [L2 [L3 [L4 L5]]]]. unfold local_ok. rewrite T1, T3, T4. auto.
+    + split; [|congruence]. destruct Hrbs as [H|[H H']]; [left; congruence | right; split; [congruence | auto]].
+  - intros q. now rewrite Hd.
+Qed.
+
 (** the first Store: from the build phase into the read-only phase *)
 Lemma first_store : forall s f, inv1 s f ->
   exists s' a, step addr kg s OStore = (s', BRef a) /\ inv2 (ms_log s') s' f.
@@ -213,6 +246,8 @@ Proof.
     specialize (IH L s' f Hinv' Hd Hnc). destruct (run addr kg s' h). exact IH.
   - destruct (store_inv2 L s f Hinv) as [a [Hs _]]. rewrite Hs.
     specialize (IH L s f Hinv Hd Hnc). destruct (run addr kg s h). exact IH.
+  - destruct (storecb_inv2 L s f budget Hinv) as [a [Hs _]]. rewrite Hs.
+    specialize (IH L s f Hinv Hd Hnc). destruct (run addr kg s h). exact IH.
   - destruct (reload_inv2 L s f Hinv) as [s' [Hs Hinv']]. rewrite Hs.
     specialize (IH L s' f Hinv' Hd Hnc). destruct (run addr kg s' h). exact IH.
 Qed.
@@ -244,6 +279,9 @@ Proof.
     assert (Hl2 : ms_log s2 = ms_log s').
     { destruct H2 as [t [a' [_ [_ [_ [_ [_ [_ [_ [_ [Hl _]]]]]]]]]]]. exact Hl. }
     rewrite Hl2. exact H2.
+  - cbn [op_disciplined] in Hdisc. destruct Hdisc as [Hx|Hb]; [discriminate Hx|].
+    destruct (rejected_store_inv1 s f budget Hinv Hb) as [s' [Hs Hinv']]. rewrite Hs in *.
+    specialize (IH s' _ Hinv' Hd). destruct (run addr kg s' h). apply IH. exact Hnc.
   - cbn [op_disciplined] in Hdisc. discriminate Hdisc.
 Qed.
 
